@@ -255,6 +255,52 @@ def monitor(ctx):
                     ctx.violation('real %s grader: non-library exception escaped with debug off' % name, case, impl=val)
 
 
+def monitor_long_lists(ctx):
+    """float arithmetic of the consolidation: long lists (up to 60 items) of the real graders, fully / partly correct, with extra and missing items:
+    the credit stays in [0, 1], and a fully correct list is exactly 1 with ok=True"""
+    from mitxgraders import StringGrader, SingleListGrader, ListGrader
+    rng = ctx.rng
+    sizes = list(range(2, 61)) if not ctx.quick else sorted(rng.sample(range(5, 61), 22) + [9, 11, 18, 20])
+    for n in sizes:
+        words = ['w%d' % j for j in range(n)]
+        part = rng.choice([0.1, 0.3, 0.7, 1 / 3])
+        for label, answers in [('plain', list(words)), ('weighted', [({'expect': w, 'grade_decimal': 1}, {'expect': w + 'p', 'grade_decimal': part}) for w in words])]:
+            for ordered in (True, False):
+                g = SingleListGrader(answers=answers, subgrader=StringGrader(), ordered=ordered, partial_credit=True)
+                shuffled = list(words); rng.shuffle(shuffled)
+                subs = [('all correct', words), ('all correct, shuffled', shuffled), ('one extra', words + ['zz']), ('one missing', words[:-1]),
+                        ('all part credit', [w + 'p' for w in words]), ('half wrong', [w if j % 2 else 'zz%d' % j for j, w in enumerate(words)])]
+                for what, items in subs:
+                    inp = ', '.join(items)
+                    kind, val = GG.run_impl(lambda: g(None, inp))
+                    ctx.contract_checks += 1
+                    case = {'monitor': 'long-list', 'n': n, 'answers': label, 'ordered': ordered, 'submission': what}
+                    if kind != 'out':
+                        ctx.violation('long SingleListGrader raised', case, impl=val); continue
+                    bad = wf(val, inp, False, strict_ok=True)
+                    if not bad and what == 'all correct' and not (val['grade_decimal'] == 1 and val['ok'] is True):
+                        bad = 'a fully correct list of %d items is graded %r / ok=%r' % (n, val['grade_decimal'], val['ok'])
+                    if not bad and what == 'all correct, shuffled' and not ordered and not (val['grade_decimal'] == 1 and val['ok'] is True):
+                        bad = 'a fully correct (reordered) list of %d items is graded %r / ok=%r' % (n, val['grade_decimal'], val['ok'])
+                    if bad:
+                        ctx.violation('real SingleListGrader, %d items, %s: %s' % (n, what, bad), case, impl=val)
+                    ctx.case(case, nontrivial_key=('longlist', n, label, ordered, what), kind='long-list:' + what)
+        # nested unordered ListGrader: the group credits are consolidated too
+        k = rng.choice([2, 3])
+        if n % k == 0 and n // k <= 7:
+            m = n // k
+            groups = [[words[a * k + b] for b in range(k)] for a in range(m)]
+            g = ListGrader(answers=groups, subgraders=ListGrader(subgraders=StringGrader(), ordered=False), grouping=[a + 1 for a in range(m) for _ in range(k)], ordered=False)
+            for what, items in [('all correct', words), ('last wrong', words[:-1] + ['zz'])]:
+                kind, val = GG.run_impl(lambda: g(None, list(items)))
+                ctx.contract_checks += 1
+                case = {'monitor': 'long-nested-list', 'n': n, 'group_size': k, 'submission': what}
+                if kind == 'out':
+                    bad = wf(val, list(items), False, strict_ok=True)
+                    if bad:
+                        ctx.violation('real nested ListGrader: %s' % bad, case, impl=val)
+
+
 def debug_isolation(ctx):
     """debug output appears only for graders CONFIGURED with debug=True: objects built with debug off are shared between parents with debug
     on/off, the parents are called (including calls that raise inside the check), and afterwards every object built with debug off is called
@@ -310,6 +356,65 @@ def debug_isolation(ctx):
                         ctx.violation('%s grader built with debug off, called after its parent: %s' % (label, bad),
                                       {'monitor': 'debug-isolation', 'leaf': name, 'shape': shape, 'history': history, 'input': i2}, impl=v2)
             ctx.case({'leaf': name, 'shape': shape, 'history': history[-1:]}, nontrivial_key=('dbgiso', it, step) if kind == 'err' else None, kind='debug-isolation:' + shape)
+
+
+def debug_registered_defaults(ctx):
+    """course-wide registered defaults (docs/plugins.md) on one or two classes of the chain; a debugged grader is built and called; graders built
+    afterwards WITHOUT debug must stay silent (and the registered dictionaries must be what was registered)"""
+    from mitxgraders import StringGrader, FormulaGrader, ListGrader, NumericalGrader
+    from mitxgraders.baseclasses import AbstractGrader, ItemGrader
+    rng = ctx.rng
+    fam = [('String', StringGrader, [ItemGrader, AbstractGrader], {'case_sensitive': False}, dict(answers='cat'), 'Cat', ['cat', 'dog', 'CAT']),
+           ('Formula', FormulaGrader, [ItemGrader, AbstractGrader], {'tolerance': 0.5}, dict(answers='x+1', variables=['x']), 'x+1', ['x+1', 'x+1.2', 'x+', '2']),
+           ('Numerical', NumericalGrader, [FormulaGrader, ItemGrader], {'tolerance': 0.5}, dict(answers='2'), '2.1', ['2', '2.2', '7', '1+'])]
+    for it in range(ctx.scale(30, 300)):
+        name, cls, supers, reg, kw, good, inputs = rng.choice(fam)
+        layers = [(cls, dict(reg))]
+        if rng.random() < 0.4:
+            sup = rng.choice(supers)
+            layers.append((sup, {'attempt_based_credit_msg': False} if sup is AbstractGrader else {'wrong_msg': 'registered wrong_msg'}))
+        if rng.random() < 0.3:
+            layers = layers[1:] or layers
+        registered = []
+        try:
+            for c, dflt in layers:
+                c.register_defaults(dflt); registered.append((c, dict(dflt)))
+            debugged = cls(debug=True, **kw)
+            k0, v0 = GG.run_impl(lambda: debugged(None, good))
+            if k0 == 'out' and 'MITx Grading Library Version' not in v0['msg']:
+                ctx.violation('grader built with debug=True gives no debug output', {'monitor': 'debug-registered', 'family': name}, impl=v0)
+            for step in range(3):
+                mode = rng.choice(['plain', 'in-list', 'inferred'])
+                inp = rng.choice(inputs)
+                try:
+                    if mode == 'plain':
+                        g = cls(**kw); sub = inp
+                        k, v = GG.run_impl(lambda: g(None, inp))
+                    elif mode == 'inferred':
+                        g = cls(**{a: b for a, b in kw.items() if a != 'answers'}); sub = inp
+                        k, v = GG.run_impl(lambda: g(kw['answers'], inp))
+                    else:
+                        g = ListGrader(answers=[kw['answers']] * 2, subgraders=cls(**{a: b for a, b in kw.items() if a != 'answers'})); sub = [inp, rng.choice(inputs)]
+                        k, v = GG.run_impl(lambda: g(None, sub))
+                except Exception as exc:      # a valid configuration that constructs on its own must construct after another grader was built
+                    ctx.violation('constructing a %s grader (valid configuration, no debug) fails after a debugged grader of the family was built: %s: %s' % (name, type(exc).__name__, str(exc)[:200]),
+                                  {'monitor': 'debug-registered', 'family': name, 'registered_on': [c.__name__ for c, _ in registered], 'mode': mode}, impl=type(exc).__name__)
+                    continue
+                ctx.contract_checks += 1
+                case = {'monitor': 'debug-registered', 'family': name, 'registered_on': [c.__name__ for c, _ in registered], 'mode': mode, 'input': sub}
+                if g.config['debug'] is not False:
+                    ctx.violation('a grader built without debug has config[debug]=%r after an earlier grader was debugged' % (g.config['debug'],), case, impl=repr(g.config['debug']))
+                if k == 'out':
+                    bad = wf(v, sub, False, strict_ok=True)
+                    if bad:
+                        ctx.violation('grader built WITHOUT debug after a debugged one (registered defaults in use): %s' % bad, case, impl=v)
+                ctx.case(case, nontrivial_key=('dbgreg', name, len(registered), mode, repr(sub)), kind='debug-registered:' + mode)
+            for c, dflt in registered:
+                if c.default_values != dflt:
+                    ctx.violation('registered defaults of %s changed by constructing graders: %r' % (c.__name__, c.default_values), {'monitor': 'debug-registered', 'family': name}, impl=repr(c.default_values))
+        finally:
+            for c, _ in layers:
+                c.clear_registered_defaults()
 
 
 def part_interval(ctx):
@@ -402,7 +507,9 @@ def run(ctx):
     run_model_part(ctx)
     part_interval(ctx)
     monitor(ctx)
+    monitor_long_lists(ctx)
     debug_isolation(ctx)
+    debug_registered_defaults(ctx)
 
 
 def search(ctx):
